@@ -206,6 +206,11 @@ def access(ctx):
             ok_tail = tv[0] == "call" and short(tv[1]) == "len" and ap_is(tv[2][0], "input") and \
                 all(tail[0][0] not in fa.reachable(0, avoid=set()) or
                     r not in fa.reachable(0, avoid={tail[0][0]}) for r in rets)
+    if not ch:
+        # the same filling written with iterator adaptors:
+        #   chars.extend(input.chars()); c2b.extend(input.char_indices().map(|(bi, _)| bi)
+        #                                               .chain(once(input.len())))
+        ok, ok_pair, ok_tail = _compute_basic_extend(E, crate, fa, S)
     chk("compute_basic|chars-and-c2b-pairwise", ok and ok_pair, fn_loc(crate, p),
         "every character pushes exactly one entry to chars and one byte offset to c2b",
         "chars and c2b are not filled pairwise in compute_basic")
@@ -213,6 +218,70 @@ def access(ctx):
         "c2b receives input.len() after the last character on every path (so that the end of the "
         "last token converts to a byte offset)",
         "the closing byte offset input.len() is not appended to c2b on every path")
+
+
+def _compute_basic_extend(E, crate, fa, S):
+    """(recognised, pairwise, tail) for the adaptor form of Sentence::compute_basic."""
+    from flow import must_pass
+
+    def chain_of(op):
+        """adaptor calls from the operand back to the text: [(name, term)], innermost last"""
+        out = []
+        cur = op
+        for _ in range(10):
+            o = fa.origin(cur)
+            if o[0] != "call":
+                break
+            nm = sorted({strip_generics(x).rsplit("::", 1)[-1] for x in callee_paths(o[2])})[0]
+            out.append((nm, o[2]))
+            if not o[2]["args"]:
+                break
+            cur = o[2]["args"][0]
+        return out
+
+    def over_input(ch_, allowed):
+        names = [n for n, _ in ch_]
+        if not names or any(n not in allowed for n in names):
+            return False
+        last = ch_[-1][1]
+        return bool(last["args"]) and ap_is(S.operand(last["args"][0]), "input")
+    ext = {}
+    for b, t in calls_named(fa, "extend"):
+        tgt = S.operand(t["args"][0])
+        for fld in ("chars", "c2b"):
+            if ap_is(tgt, fld):
+                ext.setdefault(fld, []).append((b, t))
+    if len(ext.get("chars", [])) != 1 or len(ext.get("c2b", [])) != 1:
+        return False, False, False
+    rets = fa.return_blocks()
+    every = all(must_pass(fa, r, {ext["chars"][0][0]}) and must_pass(fa, r, {ext["c2b"][0][0]}) for r in rets)
+    cch = chain_of(ext["chars"][0][1]["args"][1])
+    ok_chars = over_input(cch, {"chars", "deref", "as_str", "into_iter"}) and "chars" in [n for n, _ in cch]
+    bch = chain_of(ext["c2b"][0][1]["args"][1])
+    ok_idx, ok_tail = False, False
+    idx_chain = bch
+    if bch and bch[0][0] == "chain" and len(bch[0][1]["args"]) == 2:
+        idx_chain = bch[1:]
+        tl = fa.origin(bch[0][1]["args"][1])
+        if tl[0] == "call" and any(strip_generics(x).endswith("::once") for x in callee_paths(tl[2])):
+            tv = S.operand(tl[2]["args"][0])
+            ok_tail = tv[0] == "call" and short(tv[1]) == "len" and ap_is(tv[2][0], "input")
+    else:
+        # the end offset pushed after the extend
+        for pb, pt in calls_named(fa, "push"):
+            tv = S.operand(pt["args"][1])
+            if ap_is(S.operand(pt["args"][0]), "c2b") and tv[0] == "call" and short(tv[1]) == "len" and \
+                    ap_is(tv[2][0], "input") and pb in fa.reachable(ext["c2b"][0][0]) and \
+                    all(must_pass(fa, r, {pb}) for r in rets):
+                ok_tail = True
+    if over_input(idx_chain, {"char_indices", "map", "deref", "as_str", "into_iter"}) and \
+            [n for n, _ in idx_chain].count("map") == 1 and "char_indices" in [n for n, _ in idx_chain]:
+        mp = [t for n, t in idx_chain if n == "map"][0]
+        cl = E.closure_of_operand(fa, mp["args"][1]) if len(mp["args"]) > 1 else None
+        if cl is not None:
+            _, _, e = ret_expr(E, cl[0])
+            ok_idx = e[0] == "ap" and e[1].root == ("arg", 2) and [str(x) for x in e[1].proj] in (["#0"], ["0"])
+    return True, every and ok_chars and ok_idx, every and ok_tail
 
 
 def dispatch(ctx):
